@@ -29,6 +29,10 @@ def regen_all(force=False):
         regen_c14()
     except Exception as e:
         core.log("Gen_C14.v not regenerated: %r" % (e,))
+    try:   # C13 (allocation sizes of the modelled constructors)
+        regen_alloc()
+    except Exception as e:
+        core.log("Gen_Alloc.v not regenerated: %r" % (e,))
     _done = True
 
 
@@ -59,3 +63,13 @@ def regen_c14():
     if rc != 0:
         raise RuntimeError("dumper failed: %s rc=%d %s" % (ex, rc, err[-500:]))
     core.write_if_changed(os.path.join(core.COQ, "Gen", "Gen_C14.v"), out)
+
+
+def regen_alloc():
+    """C13: allocation sizes of the modelled constructors -> coq/Gen/Gen_Alloc.v (raises when the dumper does not build/run)."""
+    t = core.build_harness("c13_dump", ["c13_dump.c", "c13_dump_d.c"], variant="o1", link_lib=False,
+                           extra_flags=["-w", "-ffunction-sections", "-fdata-sections", "-Wl,--gc-sections"])
+    rc, out, err = core.sh([t], timeout=60)
+    if rc != 0:
+        raise RuntimeError("dumper failed: %s rc=%d %s" % (t, rc, err[-500:]))
+    core.write_if_changed(os.path.join(core.COQ, "Gen", "Gen_Alloc.v"), out)
